@@ -291,9 +291,9 @@ class OutOfFuel(Exception):
     pass
 
 
-def run(k, st, fuel=200):
-    """Reference big-step interpreter.  Returns (final state | None when the fuel ran out, visited states,
-    number of loop iterations).  The input state is not modified."""
+def run(k, st, fuel=200, limit=10 ** 9):
+    """Reference big-step interpreter.  Returns (final state | None when the fuel ran out or a value left
+    -limit..limit, visited states, number of loop iterations).  The input state is not modified."""
     visited = [dict(st)]
     box = {'fuel': fuel, 'iters': 0}
 
@@ -303,7 +303,10 @@ def run(k, st, fuel=200):
             return st
         if t == 'asg':
             st2 = dict(st)
-            st2[k[1]] = ev_expr(k[2], st)
+            val = ev_expr(k[2], st)
+            if not -limit <= val <= limit:
+                raise OutOfFuel()
+            st2[k[1]] = val
             visited.append(st2)
             return st2
         if t == 'seq':
